@@ -476,8 +476,18 @@ def scan_case(run, seed, idx, mods):
         cls = CLASSES[int(r.integers(len(CLASSES)))]
         img = gen_image2(r, shape, cls, "scaled" if scaled else str(r.choice(["rank", "centered", "repeat"])))
         mask = r.random(shape) < float(r.choice([0.1, 0.3, 0.6, 0.9, 1.0]))
-        if k > 0 and r.random() < 0.2:
+        few = r.random()
+        forced = (k == 1 and idx % 2 == 0)   # every second scan has a one-pixel second frame (after a full first frame)
+        if forced:
+            few = 0.0
+        if k > 0 and r.random() < 0.2 and not forced:
             mask[:] = False                  # empty frame
+        elif few < 0.25:
+            # a frame holding one, two or three pixels (a weak frame after the cut): each is still a labelled frame
+            mask[:] = False
+            npx = 1 if few < 0.15 else int(r.integers(2, 4))
+            mask.reshape(-1)[r.choice(mask.size, npx, replace=False)] = True
+            run.count("lmlabel_frames_with_%d_pixel%s" % (npx, "" if npx == 1 else "s"))
         elif not mask.any():
             mask[0, 0] = True
         frames.append((mask, img))
@@ -632,5 +642,6 @@ def check(run, replay=None):
     run.require_counter("lmlabel_runs", 40)
     run.require_counter("lmlabel_frames_compared", 100)
     run.require_counter("lmlabel_smooth_frames", 40)
+    run.require_counter("lmlabel_frames_with_1_pixel", 3)
     for vm in ("negative", "centered", "scaled"):
         run.require_counter("sparse_images_vmap_" + vm, 3)
